@@ -157,3 +157,59 @@ func H_C09_acceptedEventsAreListed() {
 		zzverif.Assert(vFinger(sc.sm) == fp, "C09.unlisted_event_changes_no_field")
 	}
 }
+
+// H_C09_thirdPartyMessageDoesNotShadowCounterparty: a third party that sends a message with the id of
+// somebody else's swap is refused - and leaves nothing behind that changes how the counterparty's own next
+// message of the same type is treated: the counterparty's cancel is still handled (the swap leaves its
+// state).  Bounds: states that accept a cancel, the forged message is of the same type as the genuine one
+// that follows it (a cancel with arbitrary text).
+func H_C09_thirdPartyMessageDoesNotShadowCounterparty() {
+	sc, st := vC09Scenario()
+	if _, listed := sc.sm.States[st].Events[Event_OnCancelReceived]; !listed {
+		return
+	}
+	sc.env.w.maxFaults = 0 // (a failing store stops every handler alike: not this entry's subject)
+	fp := vFinger(sc.sm)
+	third := zzverif.Str("third.party")
+	zzverif.Assume(third != sc.sm.Data.PeerNodeId)
+	forged := vMarshal(&CancelMessage{SwapId: sc.sm.SwapId, Message: zzverif.Str("forged.text")})
+	sc.svc.OnMessageReceived(third, vHexType(messages.MESSAGETYPE_CANCELED), forged)
+	zzverif.Assert(sc.sm.Current == st && vFinger(sc.sm) == fp, "C09.third_party_cancel_changes_nothing")
+	genuine := vMarshal(&CancelMessage{SwapId: sc.sm.SwapId, Message: zzverif.Str("genuine.text")})
+	sc.svc.OnMessageReceived(sc.sm.Data.PeerNodeId, vHexType(messages.MESSAGETYPE_CANCELED), genuine)
+	zzverif.Reach("c09.genuine_cancel_after_forged_one")
+	zzverif.Assert(sc.sm.Current != st, "C09.counterparty_message_still_handled_after_forged_one")
+}
+
+// H_C09_requestReusingUnreadableRecordIsRefused: "ids of swaps the node already knows" includes records the
+// running build cannot decode (written by another version, damaged): over the REAL store (bbolt map model,
+// see c29_store.go) a request reusing the id of such a record is refused, the stored bytes stay as they
+// are and nothing becomes active under the id.  The record's bytes are arbitrary non-JSON or JSON null
+// (decoder model with JSONArbitrary(false)).
+func H_C09_requestReusingUnreadableRecordIsRefused() {
+	env := newEnv(true, true)
+	env.w.maxFaults = 0
+	env.policy.newSwaps, env.policy.allowed, env.policy.suspicious, env.policy.minMsat = true, true, false, 0
+	st := vRealSwapStore()
+	env.services.swapStore = st
+	svc := NewSwapService(env.services)
+	zzverif.JSONArbitrary(false)
+	raw := zzverif.Bytes("stored.bytes", -1)
+	vStorePutRaw(st, 1, raw)
+	id := &SwapId{}
+	id.FromString(vStoreKeys[1])
+	sender := zzverif.Str("sender")
+	var err error
+	if zzverif.Bool("m.swapin") {
+		m := &SwapInRequestMessage{ProtocolVersion: 7, SwapId: id, Network: vBtcNetwork, Scid: "7x7x7", Amount: zzverif.U64("m.amount"), Pubkey: zzverif.HexStr("m.pubkey", 33), PremiumLimit: zzverif.I64("m.limit")}
+		err = svc.OnMessageReceived(sender, vHexType(messages.MESSAGETYPE_SWAPINREQUEST), vMarshal(m))
+	} else {
+		m := &SwapOutRequestMessage{ProtocolVersion: 7, SwapId: id, Network: vBtcNetwork, Scid: "7x7x7", Amount: zzverif.U64("m.amount"), Pubkey: zzverif.HexStr("m.pubkey", 33), PremiumLimit: zzverif.I64("m.limit")}
+		err = svc.OnMessageReceived(sender, vHexType(messages.MESSAGETYPE_SWAPOUTREQUEST), vMarshal(m))
+	}
+	zzverif.Assert(err != nil, "C09.request_reusing_unreadable_record_refused")
+	now, present := vStoreGetRaw(st, 1)
+	zzverif.Assert(present && string(now) == string(raw), "C09.unreadable_record_untouched")
+	_, aerr := svc.GetActiveSwap(id.String())
+	zzverif.Assert(aerr != nil && vNoEffects(env.w), "C09.unreadable_record_id_not_activated")
+}
